@@ -245,13 +245,26 @@ func includeHeader(hdr string, signedHdrs []string) bool {
 	return false
 }
 
+// IsBigDataAction reports the requests whose body is consumed as a stream
+// by the backend: PutObject and UploadPart of file objects. Only for those
+// may the signature check be deferred to the end of the body stream; every
+// other request (bucket level PUTs incl. the trailing slash form, directory
+// objects, sub resources of an object) is verified before the handler runs,
+// because its handler never reads the stream to the end.
 func IsBigDataAction(ctx *fiber.Ctx) bool {
-	if ctx.Method() == http.MethodPut && len(strings.Split(ctx.Path(), "/")) >= 3 {
-		if !ctx.Request().URI().QueryArgs().Has("tagging") && ctx.Get("X-Amz-Copy-Source") == "" && !ctx.Request().URI().QueryArgs().Has("acl") {
-			return true
-		}
+	if ctx.Method() != http.MethodPut {
+		return false
 	}
-	return false
+	path := ctx.Path()
+	_, key, found := strings.Cut(strings.TrimPrefix(path, "/"), "/")
+	if !found || key == "" || strings.HasSuffix(key, "/") {
+		return false
+	}
+	args := ctx.Request().URI().QueryArgs()
+	if args.Has("tagging") || args.Has("acl") || args.Has("retention") || args.Has("legal-hold") {
+		return false
+	}
+	return ctx.Get("X-Amz-Copy-Source") == ""
 }
 
 // expiration time window
